@@ -45,7 +45,7 @@ var parseChain = map[string]bool{
 
 func init() {
 	register(&propertySpec{
-		ID: "C01", NeedCG: true, Quick: cfgAMD, Thorough: cfgAll,
+		ID: "C01", Fixtures: []string{"FMTCONST", "EXTCUT"}, NeedCG: true, Quick: cfgAMD, Thorough: cfgAll,
 		Explanation: "Decides the structural conditions PAR2 repair rests on, for every path of the code: the only failure of reconstruction - a singular or under-determined system - is propagated as an error through every frame from the row reduction up to par2.Repair (ERRFLOW on the reconstruct chain); Repair returns nil only after every buffer it wrote matched the archive's 16k-hash and MD5, and a mismatch returns an error (WGUARD with error returns); writer and reader agree on the coder constructor, on its dimensions being the lengths of the very slices handed to it (the parity table is indexed by exponent), on slice cutting/padding and on the checksum functions (PAIR); every recovery block accepted as a parity shard has the slice size the coder's equal-length precondition needs (SHLEN); per-file damage flags are written to the record Repair reads, not to a copy (DEADST/LOCALCOPY); intact files are recognised with the full per-file predicate (SKIPOK); expected and found slice locations accumulate, so repeated slice contents do not consume recovery blocks (ACCUM); the coder workers partition the slice correctly for every goroutine count (RACE); Repair declares success only through Decoder.Repair (ENTRY-SEQ); the file writer replaces whole files (EFF write-impl). Round-3 additions: after a data file has been read, no return skips the slice search or the two file-level checks (MUSTPASS); elementary row operations cover the whole row of the matrix they touch, also of the wider augmented matrix (ROWCOVER); every surviving recovery block is a candidate row - a nil shard is skipped, it does not end the scan (FILTER).",
 		NotDecided:  []string{"that Repair succeeds whenever k blocks survive (matrix algebra, slice search at every offset)", "volume discovery beyond what C06 decides", "the values of the reconstructed bytes"},
 		Run: func(w *World, r *Report, tier string) {
@@ -116,7 +116,7 @@ func init() {
 	})
 
 	register(&propertySpec{
-		ID: "C04", NeedCG: true, Quick: cfgAMD, Thorough: cfgAll,
+		ID: "C04", Fixtures: []string{"EXTCUT"}, NeedCG: true, Quick: cfgAMD, Thorough: cfgAll,
 		Explanation: "Decides the structural conditions of the PAR1 round trip: encoder and decoder construct the same coder - reedsolomon.New(len(fileData), parity, WithPAR1Matrix()) - (PAIR); a data file counts as usable only after both hashes matched its entry, a parity volume only with verified control hash, the index volume's set hash and the volume number of its file name, and the probing loop covers exactly the volume numbers 1..max (GATE); the counts are incremented on the right edges and the verdict predicates equal the stated table (DECIDE); the coder's too-few-shards / singular error reaches the caller unchanged, where the classifier compares it by identity (ERRFLOW on the PAR1 chain, PAIR-ERRTYPE); the padding length is shown non-negative before make() (MKLEN); the full parity check runs only when all files are usable, names are sized per UTF-16 code unit, and verify/repair declare success only through the decoder (GATE, PAIR, ENTRY-SEQ); the file writer replaces whole files (EFF write-impl).",
 		NotDecided:  []string{"the matrix algebra inside klauspost/reedsolomon", "the range of volume numbers probed and padding arithmetic as values", "UTF-16 name handling beyond using unicode/utf16 on both sides (C10)"},
 		Run: func(w *World, r *Report, tier string) {
@@ -221,7 +221,7 @@ func init() {
 			guard(r, "INTONLY", func() { ruleINTONLY(w, r) })
 			guard(r, "ZEROEXP", func() { ruleZEROEXP(w, r) })
 			guard(r, "RANGE", func() {
-				ruleRANGE(w, r, []string{"gf2p16", "gf2"}, 10, func(fn *ssa.Function) bool {
+				ruleRANGE(w, r, []string{"gf2p16", "gf2"}, 5, func(fn *ssa.Function) bool {
 					return fn.Signature.Recv() != nil && namedTypeName(fn.Signature.Recv().Type()) != "gf2p16.Matrix"
 				})
 			})
@@ -369,7 +369,7 @@ func init() {
 	})
 
 	register(&propertySpec{
-		ID: "C17", NeedCG: true, Quick: cfgAMD, Thorough: cfgAll,
+		ID: "C17", Fixtures: []string{"FMTCONST"}, NeedCG: true, Quick: cfgAMD, Thorough: cfgAll,
 		Explanation: "Decides that Create's output depends only on its inputs: no time, random or process-identity call on Create's call-graph closure; every range over a map has an order-insensitive body or ranges over a field that is never set there; the recovery set is sorted by file id before it is stored; the names hashed into file ids derive from Rel(Dir(Abs(parPath)), Abs(p)) for every input (PAR1: Base(p)) (DETERM); the output names depend only on the index path (CREATE-PATHS); independence from the goroutine count by the worker partition (RACE). No I/O is done on a bare set-relative name, which would make the result depend on the working directory (ANCHOR); the writer primitive truncates, so outputs do not depend on earlier runs (EFF write-impl).",
 		NotDecided:  []string{"byte equality of two runs as such (follows only together with the purity of the kernels, which is value level)"},
 		Run: func(w *World, r *Report, tier string) {
@@ -394,7 +394,7 @@ func init() {
 	})
 
 	register(&propertySpec{
-		ID: "C18", Fixtures: []string{"GLOB", "EFF"}, NeedCG: true, Quick: cfgAMD, Thorough: cfgAll,
+		ID: "C18", Fixtures: []string{"GLOB", "EFF", "ERRKEEP"}, NeedCG: true, Quick: cfgAMD, Thorough: cfgAll,
 		Explanation: "Decides error discipline over every call site rather than sampled fault indices: every error produced by a call in par1, par2 and cmd/par (where all I/O happens) reaches, on every path on which it may be non-nil, a return in error position, a panic or a no-return call; only os.IsNotExist turns a read failure into 'damage' (ERRFLOW, with per-return-site splitting of the immediately-invoked literals). No success is reported for a write that failed (REPORT), nothing but the file being written is touched and the write primitive replaces the whole file (EFF), and the directory lister uses an error-returning API and matches names literally (GLOB). Decoder state is marked restored only on the success edge of the write (POSTWRITE).",
 		NotDecided:  []string{"that a rerun after the fault completes as if the fault had never occurred", "torn writes", "faults inside the Go runtime or the OS"},
 		Run: func(w *World, r *Report, tier string) {
